@@ -173,8 +173,13 @@ def tlc(module, cfg, env=None, workers=1, timeout=600, xss="1g", xmx=None, deque
     if env:
         e.update({k: str(v) for k, v in env.items()})
     jopts = ["-Xss" + xss]
-    if xmx:
-        jopts.append("-Xmx" + xmx)
+    # bounded heaps: up to a dozen trace validators run side by side, and the JVM's default (a quarter of
+    # the machine per process) invites the kernel's OOM killer
+    if workers == 1:
+        xmx = "2g" if xmx in (None, "3g", "4g") else xmx
+    else:
+        xmx = xmx or "12g"
+    jopts.append("-Xmx" + xmx)
     if deque:
         jopts.append("-Dtlc2.tool.queue.IStateQueue=StateDeque")
     cmd = ["java", "-XX:+UseParallelGC"] + jopts + ["-cp", TLA_CP, "tlc2.TLC", "-workers", str(workers), "-metadir", meta,
